@@ -242,7 +242,10 @@ def compare(ck, reqs, impl, model, stats, viol):
                 stats["ivo"]["disagree"] += 1
                 why = field(m, "why")
                 outcome = "display panics" if i == "panic" else "parse(display(v)) = %s" % (i.split(" ")[1] if " " in i else i)
-                if why in WHY_SIG:
+                # a known finding absorbs the failure only when the model (which encodes the known
+                # defects) predicts exactly the observed text and parse result
+                exact = (not unmod) and strip_rt(i) == strip_rt(m)
+                if exact and why in WHY_SIG:
                     sig, what = WHY_SIG[why]
                     stats["dist"]["finding:" + sig] += 1
                     viol(sig, what + " — e.g. %s: %s" % (q, outcome), {"request": q, "impl": i, "model": m})
